@@ -144,7 +144,10 @@ class Script:
     bounds="S = 2 or 3 concurrent requests after a warm-up request on one HTTP/2 connection (prior knowledge), responses of HEADERS + 2 DATA frames",
     outside="more than 3 concurrent streams; CONTINUATION/push/priority frames; more than one schedule deviation",
     stubs=("strict h2 library in server role (raises on stream-limit or flow-control violations)", "server releases the next batch of frames whenever every client task is blocked"),
-    also=("C01",),
+    also=("C01", "C02"),
+    per_prop={"C02": {"quick": [{"S": 2, "mode": "order", "_pre": f"sv == 0 and rst == 0 and ping == 0 and d0 == 0 and c0 == 0 and aband == 0 and p0 == {a} and p1 == {b}"}
+                                for a in (0, 1) for b in (0, 1)],
+                      "thorough": [{"S": 3, "mode": "order3", "_pre": f"sv == 0 and rst == 0 and ping == 0 and b0 == 0 and p0 == {a} and aband == 0 and d0 == 0 and c0 == 0"} for a in range(3)]}},
 )
 def streams(p0: int, p1: int, p2: int, p3: int, p4: int, p5: int, b0: int, sa: int, sv: int, rst: int, ping: int,
             aband: int, d0: int, c0: int, cz: int) -> None:
@@ -203,7 +206,7 @@ def _streams(S: int, picks: list[int], b0: int, settings_at: int, settings_val: 
         P.cover("interleaved")
     where = f"settings={settings_val}@{'below-in-flight' if 0 < settings_val < S else 'ok'}" if settings_val else "plain"
     # -------- each caller receives exactly its own stream
-    for prop in ("C12", "C01"):
+    for prop in ("C12", "C01", "C02"):
         token_oracle(callers, prop, sig)
     if cancel_at:
         # a caller cancelled mid-exchange is outside C12's quantifier (callers
